@@ -1,4 +1,5 @@
 import PbVerif.Lemmas.Morph
+import PbVerif.Lemmas.Morph2d
 import PbVerif.Lemmas.Hull
 /-! C14 — morphological baselines never exceed the data and commute with shifts.
 Property theorems only (model: `PbVerif.Model.Morph`, SciPy's reflect-mode flat morphology). -/
@@ -43,6 +44,117 @@ theorem snip_shift (order hwL hwR : Nat) (dec : Bool) (padded : List Rat) (c : R
 /-- non-vacuity / sanity: concrete signals where the window exceeds the data length -/
 example : tophat 3 [3, 1, 4] = [1, 1, 1] ∧ mor 1 [3, 1, 4, 1, 5] = [1, 1, 1, 1, 1] := by decide +kernel
 example : snipCore 4 2 2 false [5, 5, 5, 7, 9, 6, 5, 5, 5] = [5, 7, 7, 6, 5] := by decide +kernel
+
+/-! ### 2-D: `pybaselines/two_d/morphological.py` (`tophat`, `mor`, `imor`, `_avg_opening`)
+`scipy.ndimage.grey_erosion/grey_dilation/grey_opening(y, 2*half_wind + 1)` with a 2-D size: a flat
+(2hr+1)×(2hc+1) window, `mode='reflect'` on both axes; model `erode2d/dilate2d/opening2d hr hc` = a pass along the rows
+(`hc`) followed by a pass down the columns (`hr`).  A matrix is a list of rows; the hypotheses `∀ row ∈ m, row.length = N`,
+`0 < m.length`, `0 < N` say that it is an M×N array with M, N ≥ 1 (a 2-D NumPy array is rectangular; the model's `transpose`
+loses the shape of a ragged or column-less list, so the hypotheses are needed and are stated, never supplied by `getD`).
+All statements hold for EVERY shape and EVERY pair of half windows, equal or not, also windows longer than an axis.
+`LeM a b`: same number of rows and `LeL` row by row; `shiftM c m` = `m + c`; `ext2 m` = the doubly reflected extension. -/
+
+/-- `transpose` is an involution on M×N matrices -/
+theorem transpose_transpose (m : List (List Rat)) (N : Nat) (hrect : ∀ row ∈ m, row.length = N)
+    (hM : 0 < m.length) (hN : 0 < N) : transpose (transpose m) = m :=
+  Lemmas.transpose_transpose ⟨rfl, hrect⟩ hM hN
+/-- … onto N×M matrices -/
+theorem transpose_shape (m : List (List Rat)) (N : Nat) (hrect : ∀ row ∈ m, row.length = N) (hM : 0 < m.length) :
+    (transpose m).length = N ∧ ∀ row ∈ transpose m, row.length = m.length :=
+  rect_transpose ⟨rfl, hrect⟩ hM
+
+/-- shape: erosion, dilation, opening, mor and every imor iterate are M×N again -/
+theorem erode2d_shape (hr hc : Nat) (m : List (List Rat)) (N : Nat) (hrect : ∀ row ∈ m, row.length = N)
+    (hM : 0 < m.length) (hN : 0 < N) :
+    (erode2d hr hc m).length = m.length ∧ ∀ row ∈ erode2d hr hc m, row.length = N :=
+  rect_erode2d hr hc ⟨rfl, hrect⟩ hM hN
+theorem dilate2d_shape (hr hc : Nat) (m : List (List Rat)) (N : Nat) (hrect : ∀ row ∈ m, row.length = N)
+    (hM : 0 < m.length) (hN : 0 < N) :
+    (dilate2d hr hc m).length = m.length ∧ ∀ row ∈ dilate2d hr hc m, row.length = N :=
+  rect_dilate2d hr hc ⟨rfl, hrect⟩ hM hN
+theorem opening2d_shape (hr hc : Nat) (m : List (List Rat)) (N : Nat) (hrect : ∀ row ∈ m, row.length = N)
+    (hM : 0 < m.length) (hN : 0 < N) :
+    (opening2d hr hc m).length = m.length ∧ ∀ row ∈ opening2d hr hc m, row.length = N :=
+  rect_opening2d hr hc ⟨rfl, hrect⟩ hM hN
+theorem mor2d_shape (hr hc : Nat) (m : List (List Rat)) (N : Nat) (hrect : ∀ row ∈ m, row.length = N)
+    (hM : 0 < m.length) (hN : 0 < N) :
+    (mor2d hr hc m).length = m.length ∧ ∀ row ∈ mor2d hr hc m, row.length = N :=
+  rect_mor2d hr hc ⟨rfl, hrect⟩ hM hN
+theorem imor2d_shape (hr hc : Nat) (m : List (List Rat)) (N : Nat) (hrect : ∀ row ∈ m, row.length = N)
+    (hM : 0 < m.length) (hN : 0 < N) (k : Nat) :
+    (imorIter2d hr hc m k).length = m.length ∧ ∀ row ∈ imorIter2d hr hc m k, row.length = N :=
+  rect_imorIter2d hr hc ⟨rfl, hrect⟩ hM hN k
+
+/-- what the two passes compute: on the doubly reflected extension `erode2d` is THE minimum over the
+(2hr+1)×(2hc+1) rectangle centred at (i, j) — a lower bound of every cell of the rectangle and the greatest one —
+for all integer (i, j), i.e. reflection commutes with the 2-D erosion; dually for `dilate2d` -/
+theorem erode2d_rect_min (hr hc : Nat) (m : List (List Rat)) (N : Nat) (hrect : ∀ row ∈ m, row.length = N)
+    (hM : 0 < m.length) (hN : 0 < N) (i j : Int) :
+    (∀ a b : Int, -(hr:Int) ≤ a → a ≤ hr → -(hc:Int) ≤ b → b ≤ hc → ext2 (erode2d hr hc m) i j ≤ ext2 m (i + a) (j + b)) ∧
+    (∀ c : Rat, (∀ a b : Int, -(hr:Int) ≤ a → a ≤ hr → -(hc:Int) ≤ b → b ≤ hc → c ≤ ext2 m (i + a) (j + b)) →
+      c ≤ ext2 (erode2d hr hc m) i j) := by
+  rw [ext2_erode2d hr hc ⟨rfl, hrect⟩ hM hN]
+  exact ⟨fun a b => E2_le hr hc _ i j a b, fun c H => le_E2 hr hc _ i j c H⟩
+theorem dilate2d_rect_max (hr hc : Nat) (m : List (List Rat)) (N : Nat) (hrect : ∀ row ∈ m, row.length = N)
+    (hM : 0 < m.length) (hN : 0 < N) (i j : Int) :
+    (∀ a b : Int, -(hr:Int) ≤ a → a ≤ hr → -(hc:Int) ≤ b → b ≤ hc → ext2 m (i + a) (j + b) ≤ ext2 (dilate2d hr hc m) i j) ∧
+    (∀ c : Rat, (∀ a b : Int, -(hr:Int) ≤ a → a ≤ hr → -(hc:Int) ≤ b → b ≤ hc → ext2 m (i + a) (j + b) ≤ c) →
+      ext2 (dilate2d hr hc m) i j ≤ c) := by
+  rw [ext2_dilate2d hr hc ⟨rfl, hrect⟩ hM hN]
+  exact ⟨fun a b => le_D2 hr hc _ i j a b, fun c H => D2_le hr hc _ i j c H⟩
+/-- the extension restricted to the index range is the matrix itself (so the two theorems above speak about the entries) -/
+theorem ext2_entry (m : List (List Rat)) (N : Nat) (hrect : ∀ row ∈ m, row.length = N) (i j : Nat)
+    (hi : i < m.length) (hj : j < N) : ext2 m (i : Int) (j : Int) = (m.getD i []).getD j 0 :=
+  ext2_of_lt ⟨rfl, hrect⟩ i j hi hj
+
+/-- 2-D tophat: the opening lies at or below the data at every entry -/
+theorem tophat2d_le (hr hc : Nat) (m : List (List Rat)) (N : Nat) (hrect : ∀ row ∈ m, row.length = N)
+    (hM : 0 < m.length) (hN : 0 < N) : LeM (opening2d hr hc m) m :=
+  opening2d_le hr hc ⟨rfl, hrect⟩ hM hN
+/-- 2-D tophat of its own output changes nothing -/
+theorem tophat2d_idem (hr hc : Nat) (m : List (List Rat)) (N : Nat) (hrect : ∀ row ∈ m, row.length = N)
+    (hM : 0 < m.length) (hN : 0 < N) : opening2d hr hc (opening2d hr hc m) = opening2d hr hc m :=
+  opening2d_idem hr hc ⟨rfl, hrect⟩ hM hN
+/-- adding a constant to the data adds it to the 2-D tophat baseline -/
+theorem tophat2d_shift (hr hc : Nat) (m : List (List Rat)) (N : Nat) (c : Rat) (hrect : ∀ row ∈ m, row.length = N)
+    (hM : 0 < m.length) (hN : 0 < N) : opening2d hr hc (shiftM c m) = shiftM c (opening2d hr hc m) :=
+  opening2d_shift hr hc c ⟨rfl, hrect⟩ hM hN
+/-- 2-D mor = `np.minimum(opening, _avg_opening(y, half_wind, opening))` is at or below the data -/
+theorem mor2d_le (hr hc : Nat) (m : List (List Rat)) (N : Nat) (hrect : ∀ row ∈ m, row.length = N)
+    (hM : 0 < m.length) (hN : 0 < N) : LeM (mor2d hr hc m) m :=
+  Lemmas.mor2d_le hr hc ⟨rfl, hrect⟩ hM hN
+theorem mor2d_shift (hr hc : Nat) (m : List (List Rat)) (N : Nat) (c : Rat) (hrect : ∀ row ∈ m, row.length = N)
+    (hM : 0 < m.length) (hN : 0 < N) : mor2d hr hc (shiftM c m) = shiftM c (mor2d hr hc m) :=
+  Lemmas.mor2d_shift hr hc c ⟨rfl, hrect⟩ hM hN
+/-- every 2-D imor iterate `np.minimum(y, _avg_opening(baseline, half_wind))` (hence the returned one, whatever
+max_iter/tol) is at or below the data -/
+theorem imor2d_le (hr hc : Nat) (m : List (List Rat)) (N : Nat) (hrect : ∀ row ∈ m, row.length = N)
+    (hM : 0 < m.length) (hN : 0 < N) (k : Nat) : LeM (imorIter2d hr hc m k) m :=
+  Lemmas.imor2d_le hr hc ⟨rfl, hrect⟩ hM hN k
+
+/-- non-vacuity / sanity on a 3×4 matrix with unequal windows, the row window 2·2+1 = 5 longer than the 4 columns,
+(and (2, 1): the column window longer than the 3 rows; (1, 0): a pure column pass): the hypotheses hold, the baselines
+are not the data, `mor` and `imor` produce values that are not entries of the data -/
+example : (∀ row ∈ [[3, 1, 4, 1], [5, 9, 7, 6], [5, 8, 9, 8]], row.length = 4) ∧
+    0 < [[(3 : Rat), 1, 4, 1], [5, 9, 7, 6], [5, 8, 9, 8]].length := by decide
+example : opening2d 1 2 [[3, 1, 4, 1], [5, 9, 7, 6], [5, 8, 9, 8]] = [[1, 1, 1, 1], [5, 6, 6, 6], [5, 6, 6, 6]] ∧
+    erode2d 1 2 [[3, 1, 4, 1], [5, 9, 7, 6], [5, 8, 9, 8]] = [[1, 1, 1, 1], [1, 1, 1, 1], [5, 5, 5, 6]] ∧
+    opening2d 2 1 [[3, 1, 4, 1], [5, 9, 7, 6], [5, 8, 9, 8]] = [[1, 1, 1, 1], [1, 1, 1, 1], [1, 1, 1, 1]] ∧
+    opening2d 1 0 [[3, 1, 4, 1], [5, 9, 2, 6], [5, 3, 5, 8]] = [[3, 1, 2, 1], [5, 3, 2, 6], [5, 3, 2, 6]] ∧
+    opening2d 0 1 [[3, 1, 4, 1], [5, 9, 2, 6], [5, 3, 5, 8]] = [[1, 1, 1, 1], [5, 5, 2, 2], [3, 3, 5, 5]] := by
+  decide +kernel
+example : mor2d 1 2 [[3, 1, 4, 1], [5, 9, 7, 6], [5, 8, 9, 8]] = [[1, 1, 1, 1], [7/2, 7/2, 7/2, 7/2], [5, 11/2, 11/2, 6]] ∧
+    imorIter2d 1 2 [[3, 1, 4, 1], [5, 9, 7, 6], [5, 8, 9, 8]] 2
+      = [[9/4, 1, 9/4, 1], [9/4, 9/4, 9/4, 9/4], [7/2, 7/2, 7/2, 7/2]] := by decide +kernel
+example : opening2d 1 2 (shiftM 7 [[3, 1, 4, 1], [5, 9, 7, 6], [5, 8, 9, 8]]) = [[8, 8, 8, 8], [12, 13, 13, 13], [12, 13, 13, 13]] ∧
+    transpose [[3, 1, 4, 1], [5, 9, 7, 6], [5, 8, 9, 8]] = [[3, 5, 5], [1, 9, 8], [4, 7, 9], [1, 6, 8]] := by decide +kernel
+/-- the shape hypotheses are needed: on a ragged list the model's `transpose` pads with `getD`'s default and the
+result does not even have the shape of the "data" (so `LeM` fails); a column-less list loses its rows -/
+example : opening2d 0 0 [[1, 2], [3]] = [[1, 2], [3, 0]] ∧ opening2d 1 1 [[], []] = [] := by decide +kernel
+/-- a row dilation and a column erosion do NOT commute (which is why the proofs go through the per-axis adjunctions
+and the commutation of the two erosions / the two dilations only) -/
+example : rowsThenCols (erode 1) (dilate 1) [[0, 1], [1, 0]] = [[1, 1], [1, 1]] ∧
+    ((transpose [[0, 1], [1, 0]]).map (erode 1) |> transpose).map (dilate 1) = [[0, 0], [0, 0]] := by decide +kernel
 
 /-! ### rubberband without smoothing = THE lower convex hull
 `pybaselines/classification.py:_Classification.rubberband` (`lam` None/0): Qhull's vertices become `mask`, the
